@@ -110,10 +110,13 @@ struct Server {
     port: u16,
     stop: Arc<AtomicBool>,
     log: Arc<Mutex<Vec<String>>>,
+    alerts: Arc<Mutex<Vec<String>>>,
     handle: Option<std::thread::JoinHandle<()>>,
 }
 impl Server {
-    fn start(script: UrlScript, chunks: Vec<Vec<u8>>, conc: Conc) -> Server {
+    fn start(script: UrlScript, chunks: Vec<Vec<u8>>, conc: Conc) -> Server { Server::start_watching(script, chunks, conc, None) }
+    /// `watch`: the cache directory; while a body is in flight the server looks at it once and reports anything that was not there before
+    fn start_watching(script: UrlScript, chunks: Vec<Vec<u8>>, conc: Conc, watch: Option<PathBuf>) -> Server {
         // thousands of short-lived listeners: the kernel may briefly have no free port while old sockets sit in TIME_WAIT
         let mut listener = None;
         for _ in 0..600 {
@@ -127,14 +130,16 @@ impl Server {
         let port = listener.local_addr().unwrap().port();
         let stop = Arc::new(AtomicBool::new(false));
         let log = Arc::new(Mutex::new(Vec::new()));
-        let (stop2, log2) = (stop.clone(), log.clone());
+        let alerts = Arc::new(Mutex::new(Vec::new()));
+        let initial = watch.as_ref().map(|w| (w.clone(), tree(w)));
+        let (stop2, log2, alerts2) = (stop.clone(), log.clone(), alerts.clone());
         let handle = std::thread::spawn(move || {
             let mut conns = Vec::new();
             while !stop2.load(Ordering::SeqCst) {
                 match listener.accept() {
                     Ok((s, _)) => {
-                        let (script, chunks, stop3, log3) = (script.clone(), chunks.clone(), stop2.clone(), log2.clone());
-                        conns.push(std::thread::spawn(move || serve(s, script, chunks, conc, stop3, log3)));
+                        let (script, chunks, stop3, log3, alerts3, initial3) = (script.clone(), chunks.clone(), stop2.clone(), log2.clone(), alerts2.clone(), initial.clone());
+                        conns.push(std::thread::spawn(move || serve(s, script, chunks, conc, stop3, log3, alerts3, initial3)));
                     }
                     Err(_) => std::thread::sleep(Duration::from_millis(1)),
                 }
@@ -143,7 +148,7 @@ impl Server {
                 let _ = c.join();
             }
         });
-        Server { port, stop, log, handle: Some(handle) }
+        Server { port, stop, log, alerts, handle: Some(handle) }
     }
     fn finish(&mut self) -> Vec<String> {
         self.stop.store(true, Ordering::SeqCst);
@@ -160,7 +165,9 @@ fn stall(stop: &AtomicBool) {
     }
 }
 
-fn serve(mut s: TcpStream, script: UrlScript, chunks: Vec<Vec<u8>>, conc: Conc, stop: Arc<AtomicBool>, log: Arc<Mutex<Vec<String>>>) {
+#[allow(clippy::too_many_arguments)]
+fn serve(mut s: TcpStream, script: UrlScript, chunks: Vec<Vec<u8>>, conc: Conc, stop: Arc<AtomicBool>, log: Arc<Mutex<Vec<String>>>, alerts: Arc<Mutex<Vec<String>>>,
+         watch: Option<(PathBuf, Vec<(String, Vec<u8>)>)>) {
     let _ = s.set_nonblocking(false);
     let _ = s.set_nodelay(true);
     let _ = s.set_read_timeout(Some(Duration::from_secs(5)));
@@ -221,6 +228,17 @@ fn serve(mut s: TcpStream, script: UrlScript, chunks: Vec<Vec<u8>>, conc: Conc, 
         }
         let _ = s.flush();
         std::thread::sleep(Duration::from_millis(2));
+        // part of the body is out and more is to come: whatever the client is doing with it, the cache must look as it did before
+        if k == 0 && script.cut > 1 {
+            if let Some((dir, before)) = &watch {
+                std::thread::sleep(Duration::from_millis(60));
+                let now = tree(dir);
+                if now != *before {
+                    let extra: Vec<String> = now.iter().filter(|e| !before.contains(e)).map(|(p, c)| format!("{} ({} bytes)", p, c.len())).collect();
+                    alerts.lock().unwrap().push(format!("during the download the cache contained: {:?}", extra));
+                }
+            }
+        }
     }
     if script.cut == n && conc.chunked {
         let _ = s.write_all(b"0\r\n\r\n");
@@ -309,6 +327,7 @@ struct Observed {
     sym_debug: String,
     file_path: Option<PathBuf>,
     requests: Vec<Vec<String>>,
+    alerts: Vec<String>,
     ports: Vec<u16>,
     bodies: Vec<Vec<u8>>,
 }
@@ -335,13 +354,13 @@ async fn play(case: &Case, n: usize, conc: Conc, root: &Path) -> Observed {
     for (i, s) in case.scripts.iter().enumerate() {
         let chunks = body_chunks(&case.kind, n, s.bad_at, conc.mid, i + 1);
         bodies.push(chunks.concat());
-        servers.push(Server::start(s.clone(), chunks, conc));
+        servers.push(Server::start_watching(s.clone(), chunks, conc, Some(cache.clone())));
     }
     let urls: Vec<String> = servers.iter().map(|s| format!("http://127.0.0.1:{}/sub/", s.port)).collect();
     let supplier = HttpSymbolSupplier::new(urls, cache.clone(), tmp.clone(), vec![], Duration::from_secs(20));
     let m = module("lib.so", "lib.so");
     let wait = if case.pc == "dropped" { Duration::from_millis(250) } else { Duration::from_secs(40) };
-    let mut obs = Observed { ok: false, dropped: false, hung: false, url: None, sym_debug: String::new(), file_path: None, requests: vec![], ports: servers.iter().map(|s| s.port).collect(), bodies };
+    let mut obs = Observed { ok: false, dropped: false, hung: false, url: None, sym_debug: String::new(), file_path: None, requests: vec![], alerts: vec![], ports: servers.iter().map(|s| s.port).collect(), bodies };
     if case.kind == "sym" && !conc.via_file {
         match tokio::time::timeout(wait, supplier.locate_symbols(&m)).await {
             Ok(Ok(r)) => {
@@ -371,6 +390,7 @@ async fn play(case: &Case, n: usize, conc: Conc, root: &Path) -> Observed {
     drop(supplier);
     for s in servers.iter_mut() {
         obs.requests.push(s.finish());
+        obs.alerts.extend(s.alerts.lock().unwrap().iter().cloned());
     }
     obs
 }
@@ -538,6 +558,9 @@ fn main() {
                 ("line-3m", format!("{}FUNC 1000 10 0 f1\nPUBLIC 2000 0 {}\nPUBLIC 3000 0 after\n", head, long(3 * 1024 * 1024)).into_bytes()),
                 ("two-long-lines", format!("{}PUBLIC 2000 0 {}\nPUBLIC 2100 0 {}\nFUNC 1000 10 0 tail\n", head, long(170 * 1024), long(90 * 1024)).into_bytes()),
                 ("long-then-garbage", format!("{}PUBLIC 2000 0 {}\nTHIS IS NOT A RECORD\n", head, long(200 * 1024)).into_bytes()),
+                // a served file that already says where it once came from: the note of THIS download is still appended, and it is the one reported
+                ("foreign-info-url", format!("{}INFO URL http://elsewhere.example/lib.so.sym\nFUNC 1000 10 0 f1\n", head).into_bytes()),
+                ("foreign-info-url-last", format!("{}FUNC 1000 10 0 f1\nINFO URL http://elsewhere.example/lib.so.sym\n", head).into_bytes()),
                 ("only-module", head.clone().into_bytes()),
                 ("empty", vec![]),
             ];
@@ -668,6 +691,10 @@ async fn judge(case: &Case, n: usize, conc: Conc, obs: &Observed, root: &Path) -
         if r.len() != want {
             mm.push(("requests".into(), json!({"url": i + 1, "seen": r, "model_idx": idx})));
         }
+    }
+    // while a body was in flight the cache held nothing it did not hold before
+    if !obs.alerts.is_empty() {
+        mm.push(("partial-file-in-cache-during-download".into(), json!({"seen": obs.alerts})));
     }
     // tmp/: nothing may remain
     if case.tmp_ok {
